@@ -450,6 +450,15 @@ pub fn validate_amount_decimals(amount: f64, currency: &str) -> Result<(), Parse
 /// - Amount format is invalid
 /// - Decimal precision exceeds currency limit (C03)
 pub fn parse_amount_with_currency(input: &str, currency: &str) -> Result<f64, ParseError> {
+    // every amount that stands next to a currency code is a 15d component
+    if input.len() > 15 {
+        return Err(ParseError::InvalidFormat {
+            message: format!(
+                "Amount must not exceed 15 characters, found {}",
+                input.len()
+            ),
+        });
+    }
     let amount = parse_amount(input)?;
 
     // Count the decimals as written (trailing zeros aside), not from the f64: the binary
